@@ -324,7 +324,7 @@ EvalCalledLambda(t, env) ==     \* t = call whose func is a lam term
 (* i.e. the called lambda (lambda params: body)(args).  The table is rendered to real `def`s  *)
 (* and lambdas by the harness (harness/props_helpers.py HELPER_SOURCE must match).            *)
 LamD(ps, nd, body, defs) == T("lam", "", nd, ps, <<body>> \o defs)
-HelperNames == {"h_id", "h_inc", "h_sub", "h_lam", "h_nest", "h_nest2", "h_two", "h_cap", "h_kw", "h_d3", "h_deep"}
+HelperNames == {"h_id", "h_inc", "h_sub", "h_lam", "h_nest", "h_nest2", "h_two", "h_cap", "h_kw", "h_d3", "h_deep", "h_rec"}
 HelperLam(f) ==
     CASE f = "h_id"   -> Lam(<<"a">>, Name("a"))
       [] f = "h_inc"  -> Lam(<<"a">>, BinOp("+", Name("a"), IntC(1)))
@@ -343,6 +343,8 @@ HelperLam(f) ==
       [] f = "h_deep" -> Lam(<<"c">>, Fn("Sum", <<Fn("SelectMany", <<Attr(Name("c"), "jets"),
                                  Lam(<<"r">>, Fn("Select", <<Attr(Name("r"), "trks"),
                                      Lam(<<"t">>, BinOp("+", Attr(Name("t"), "pt"), Attr(Name("c"), "met")))>>))>>)>>))
+      \* uses its parameter twice: the argument expression ends up at two places of the query
+      [] f = "h_rec"  -> Lam(<<"v">>, BinOp("+", Attr(Name("v"), "a"), Attr(Name("v"), "b")))
       [] f = "h_d3"   -> LamD(<<"x", "y", "z">>, 2,
                               BinOp("+", BinOp("*", Name("x"), IntC(100)), BinOp("+", BinOp("*", Name("y"), IntC(10)), Name("z"))),
                               <<IntC(2), IntC(7)>>)
@@ -359,6 +361,13 @@ EvalFunc(t, env) ==      \* t = call whose func is a name
            ELSE SeqOp(f, Eval(args[1], env), Tail(args), t.p, kwv, env)
        ELSE IF f \in HelperNames /\ f \notin DOMAIN env THEN
            EvalCalledLambda([t EXCEPT !.a[1] = HelperLam(f)], env)
+       ELSE IF f = "Rec2" /\ f \notin DOMAIN env THEN
+           \* data class Rec2(a: int, b: int = 22): Python's constructor binding, value = the record
+           LET avs == [i \in 1..Len(args) |-> Eval(args[i], env)]
+               kvs == [i \in 1..Len(kwv) |-> Eval(kwv[i], env)]
+           IN IF AnyBad(avs \o kvs) THEN FirstBad(avs \o kvs)
+              ELSE LET b == Bind(<<P("a", FALSE, 0), P("b", TRUE, 22)>>, avs, t.p, kvs) IN
+                   IF ~b[1] THEN Err("TypeError-bind") ELSE VDict(<<"a", "b">>, b[2])
        ELSE IF f \in DOMAIN env THEN Unm("call-of-variable")
        ELSE LET avs == [i \in 1..Len(args) |-> Eval(args[i], env)]
                 kvs == [i \in 1..Len(kwv) |-> Eval(kwv[i], env)]
